@@ -36,5 +36,5 @@ def run(ctx):
     bp = os.path.join(ctx.scratch, "behaviours.json")
     write_json(bp, bs)
     ctx.drive(drv16, ["-mode", "replay", "-iter", "-in", bp], name="c16-replay-iter", timeout=T)
-    return ctx.finish(rule="MC/R: all stacks store+buffer+<=MaxDiffs diffs over 3 keys x all seeks (quick: MaxDiffs=1, every 5th case executed; thorough: MaxDiffs=2, every 41st); histories: sampled PathDB behaviours",
+    return ctx.finish(rule="MC/R: all stacks store+buffer+<=MaxDiffs diffs over 3 keys x all seeks (quick: MaxDiffs=1, every 5th case executed; thorough: MaxDiffs=1 with every 2nd case executed (MaxDiffs=2 exceeds TLC's 10^6-element set limit at Init)); histories: sampled PathDB behaviours",
                       assumptions=["3 keys per level; values tagged by layer", "legacy snapshot: buffer layer = lowest diff layer / accumulator"])
